@@ -44,6 +44,8 @@ func main() {
 		famC06p(os.Args[2])
 	case "c12pk":
 		famC12pk(os.Args[2])
+	case "c17rpc":
+		famC17rpc(os.Args[2])
 	case "c12pk-node":
 		c12pkNode(os.Args[2])
 	default:
@@ -114,8 +116,11 @@ func famHist(out string) {
 				p.Steps, p.PBadTx, p.PCorrupt, p.PFork, p.PReorg, p.Scenario = 24, 0, 0, 5, 5, "badtxsweep"
 			}
 		}
-		// one history in twelve (quick) is replayed on the real LMDB back-end
-		p.LMDB = i%12 == 5 || (hutil.Tier() == "thorough" && i%20 == 7)
+		// every history (but the long one) is replayed on the real LMDB back-end, delivery after delivery with nothing in
+		// between: the node under test shares its Blockchain value with the block builder of this harness, which reads
+		// other stores between two deliveries; a process-wide cache that survives a rolled-back transaction shows only in
+		// the uninterrupted replay
+		p.LMDB = p.Scenario != "h440"
 		h := w.genHistory(p)
 		class := fmt.Sprintf("hist/fork=%d/bad=%d", p.PFork, p.PBadTx)
 		for k, v := range h.Stats {
